@@ -6,7 +6,7 @@
 use bump_scope::alloc::{AllocError, Allocator};
 use bump_scope::settings::{BumpAllocatorSettings, BumpSettings};
 use bump_scope::traits::*;
-use bump_scope::{BaseAllocator, Bump, BumpBox, BumpScope, WithoutDealloc, WithoutShrink};
+use bump_scope::{BaseAllocator, Bump, BumpBox, BumpScope, BumpVec, MutBumpVec, MutBumpVecRev, WithoutDealloc, WithoutShrink};
 use std::alloc::Layout;
 use std::cell::RefCell;
 use std::ffi::CStr;
@@ -80,9 +80,10 @@ pub const TYPED_EPS: [&str; 16] = [
     "Bump::m", "BumpScope::m", "Trait(BumpScope)::m", "Trait(&Bump)::m", "Trait(&BumpScope)::m", "Trait(WoD<&BumpScope>)::m", "Trait(WoS<&BumpScope>)::m", "Trait(dyn CoreScope)::m",
     "Bump::try_m", "BumpScope::try_m", "Trait(BumpScope)::try_m", "Trait(&Bump)::try_m", "Trait(&BumpScope)::try_m", "Trait(WoD<&BumpScope>)::try_m", "Trait(WoS<&BumpScope>)::try_m", "Trait(dyn CoreScope)::try_m",
 ];
-pub const MUT_EPS: [&str; 10] = [
-    "Bump::m", "BumpScope::m", "Trait(BumpScope)::m", "Trait(&mut Bump)::m", "Trait(&mut BumpScope)::m",
-    "Bump::try_m", "BumpScope::try_m", "Trait(BumpScope)::try_m", "Trait(&mut Bump)::try_m", "Trait(&mut BumpScope)::try_m",
+pub const MUT_EPS: [&str; 16] = [
+    "Bump::m", "BumpScope::m", "Trait(BumpScope)::m", "Trait(&mut Bump)::m", "Trait(&mut BumpScope)::m", "Trait(WoD<&mut BumpScope>)::m", "Trait(WoS<&mut BumpScope>)::m", "Trait(dyn MutCoreScope)::m",
+    "Bump::try_m", "BumpScope::try_m", "Trait(BumpScope)::try_m", "Trait(&mut Bump)::try_m", "Trait(&mut BumpScope)::try_m", "Trait(WoD<&mut BumpScope>)::try_m", "Trait(WoS<&mut BumpScope>)::try_m",
+    "Trait(dyn MutCoreScope)::try_m",
 ];
 
 /// calls method `$m`/`$tm` through entry point `$ep` on `$b: &Bump`
@@ -131,11 +132,23 @@ macro_rules! typed_mut {
             2 => Ok(MutBumpAllocatorTypedScope::$m(b.as_mut_scope(), $($a),*)),
             3 => Ok(MutBumpAllocatorTypedScope::$m(&mut &mut *b, $($a),*)),
             4 => Ok(MutBumpAllocatorTypedScope::$m(&mut b.as_mut_scope(), $($a),*)),
-            5 => b.$tm($($a),*),
-            6 => b.as_mut_scope().$tm($($a),*),
-            7 => MutBumpAllocatorTypedScope::$tm(b.as_mut_scope(), $($a),*),
-            8 => MutBumpAllocatorTypedScope::$tm(&mut &mut *b, $($a),*),
-            _ => MutBumpAllocatorTypedScope::$tm(&mut b.as_mut_scope(), $($a),*),
+            5 => Ok(MutBumpAllocatorTypedScope::$m(&mut WithoutDealloc(b.as_mut_scope()), $($a),*)),
+            6 => Ok(MutBumpAllocatorTypedScope::$m(&mut WithoutShrink(b.as_mut_scope()), $($a),*)),
+            7 => {
+                let d: &mut dyn MutBumpAllocatorCoreScope = b.as_mut_scope();
+                Ok(MutBumpAllocatorTypedScope::$m(d, $($a),*))
+            }
+            8 => b.$tm($($a),*),
+            9 => b.as_mut_scope().$tm($($a),*),
+            10 => MutBumpAllocatorTypedScope::$tm(b.as_mut_scope(), $($a),*),
+            11 => MutBumpAllocatorTypedScope::$tm(&mut &mut *b, $($a),*),
+            12 => MutBumpAllocatorTypedScope::$tm(&mut b.as_mut_scope(), $($a),*),
+            13 => MutBumpAllocatorTypedScope::$tm(&mut WithoutDealloc(b.as_mut_scope()), $($a),*),
+            14 => MutBumpAllocatorTypedScope::$tm(&mut WithoutShrink(b.as_mut_scope()), $($a),*),
+            _ => {
+                let d: &mut dyn MutBumpAllocatorCoreScope = b.as_mut_scope();
+                MutBumpAllocatorTypedScope::$tm(d, $($a),*)
+            }
         }
     }};
 }
@@ -183,6 +196,14 @@ enum Req {
     CStrFmtMut(String, u64),
     Raw(Layout, bool),
     TypedLayout(Layout),
+    /// BumpVec: with_capacity, extend, optional shrink_to_fit, into_boxed_slice - over every allocator handle
+    VecSession(Vec<u32>, usize, bool),
+    /// MutBumpVec / MutBumpVecRev over every exclusive allocator handle
+    MutVecSession(Vec<[u8; 3]>, usize, bool),
+    /// checkpoint, some allocations, reset_to, one allocation - through every `BumpAllocatorCore` implementor
+    CheckpointReset(Vec<usize>),
+    /// alloc_try_with(_mut) and the try_ twins, inherent on Bump and on BumpScope
+    TryWith(bool, u64),
 }
 
 #[derive(Clone, Copy, PartialEq, Eq, Debug)]
@@ -242,23 +263,23 @@ where
         }
         Req::IterMut(v) => {
             let bm = &mut side.bump;
-            let r = guarded(|| typed_mut!(ep % 10, bm, alloc_iter_mut, try_alloc_iter_mut, (v.clone())).map(slice_parts));
-            (out_of(side, r, |x| x), MUT_EPS[ep % 10].into())
+            let r = guarded(|| typed_mut!(ep % 16, bm, alloc_iter_mut, try_alloc_iter_mut, (v.clone())).map(slice_parts));
+            (out_of(side, r, |x| x), MUT_EPS[ep % 16].into())
         }
         Req::IterMutRev(v) => {
             let bm = &mut side.bump;
-            let r = guarded(|| typed_mut!(ep % 10, bm, alloc_iter_mut_rev, try_alloc_iter_mut_rev, (v.clone())).map(slice_parts));
-            (out_of(side, r, |x| x), MUT_EPS[ep % 10].into())
+            let r = guarded(|| typed_mut!(ep % 16, bm, alloc_iter_mut_rev, try_alloc_iter_mut_rev, (v.clone())).map(slice_parts));
+            (out_of(side, r, |x| x), MUT_EPS[ep % 16].into())
         }
         Req::FmtMut(s, x) => {
             let bm = &mut side.bump;
-            let r = guarded(|| typed_mut!(ep % 10, bm, alloc_fmt_mut, try_alloc_fmt_mut, (format_args!("{s}/{x}/{s}"))).map(str_parts));
-            (out_of(side, r, |x| x), MUT_EPS[ep % 10].into())
+            let r = guarded(|| typed_mut!(ep % 16, bm, alloc_fmt_mut, try_alloc_fmt_mut, (format_args!("{s}/{x}/{s}"))).map(str_parts));
+            (out_of(side, r, |x| x), MUT_EPS[ep % 16].into())
         }
         Req::CStrFmtMut(s, x) => {
             let bm = &mut side.bump;
-            let r = guarded(|| typed_mut!(ep % 10, bm, alloc_cstr_fmt_mut, try_alloc_cstr_fmt_mut, (format_args!("{s}{x}\0{s}"))).map(cstr_parts));
-            (out_of(side, r, |x| x), MUT_EPS[ep % 10].into())
+            let r = guarded(|| typed_mut!(ep % 16, bm, alloc_cstr_fmt_mut, try_alloc_cstr_fmt_mut, (format_args!("{s}{x}\0{s}"))).map(cstr_parts));
+            (out_of(side, r, |x| x), MUT_EPS[ep % 16].into())
         }
         Req::Raw(l, zero) => {
             // the allocator interface through every handle
@@ -335,6 +356,148 @@ where
             };
             (o, names[k].into())
         }
+        Req::VecSession(data, cap, shrink) => {
+            let names = [
+                "BumpVec<&Bump>", "BumpVec<&BumpScope>", "BumpVec<WoD<&BumpScope>>", "BumpVec<&dyn CoreScope>", "try BumpVec<&Bump>", "try BumpVec<&BumpScope>", "try BumpVec<WoD<&BumpScope>>",
+                "try BumpVec<&dyn CoreScope>",
+            ];
+            let k = ep % 8;
+            let try_ = k >= 4;
+            macro_rules! session {
+                ($alloc:expr) => {{
+                    let alloc = $alloc;
+                    (|| -> Result<(NonNull<u8>, usize), AllocError> {
+                        let mut v = if try_ { BumpVec::try_with_capacity_in(cap, alloc)? } else { BumpVec::with_capacity_in(cap, alloc) };
+                        if try_ {
+                            v.try_extend_from_slice_copy(&data)?;
+                        } else {
+                            v.extend_from_slice_copy(&data);
+                        }
+                        if shrink {
+                            v.shrink_to_fit();
+                        }
+                        Ok(slice_parts(v.into_boxed_slice()))
+                    })()
+                }};
+            }
+            let sc = side.bump.as_scope();
+            let r = guarded(|| match k % 4 {
+                0 => session!(&side.bump),
+                1 => session!(sc),
+                2 => session!(WithoutDealloc(sc)),
+                _ => {
+                    let d: &dyn BumpAllocatorCoreScope = sc;
+                    session!(d)
+                }
+            });
+            (out_of(side, r, |x| x), names[k].into())
+        }
+        Req::MutVecSession(data, cap, rev) => {
+            let names = ["&mut Bump", "&mut BumpScope", "WoD<&mut BumpScope>", "WoS<&mut BumpScope>", "&mut dyn MutCoreScope"];
+            let k = ep % 10;
+            let try_ = k >= 5;
+            macro_rules! session {
+                ($T:ident, $alloc:expr) => {{
+                    let alloc = $alloc;
+                    (|| -> Result<(NonNull<u8>, usize), AllocError> {
+                        let mut v = if try_ { $T::try_with_capacity_in(cap, alloc)? } else { $T::with_capacity_in(cap, alloc) };
+                        for x in &data {
+                            if try_ {
+                                v.try_push(*x)?;
+                            } else {
+                                v.push(*x);
+                            }
+                        }
+                        Ok(slice_parts(v.into_boxed_slice()))
+                    })()
+                }};
+            }
+            macro_rules! both {
+                ($alloc:expr) => {
+                    if rev { session!(MutBumpVecRev, $alloc) } else { session!(MutBumpVec, $alloc) }
+                };
+            }
+            let bm = &mut side.bump;
+            let r = guarded(|| match k % 5 {
+                0 => both!(&mut *bm),
+                1 => both!(bm.as_mut_scope()),
+                2 => both!(WithoutDealloc(bm.as_mut_scope())),
+                3 => both!(WithoutShrink(bm.as_mut_scope())),
+                _ => both!({
+                    let d: &mut dyn MutBumpAllocatorCoreScope = bm.as_mut_scope();
+                    d
+                }),
+            });
+            (out_of(side, r, |x| x), format!("{}{}<{}>", if try_ { "try " } else { "" }, if rev { "MutBumpVecRev" } else { "MutBumpVec" }, names[k % 5]))
+        }
+        Req::CheckpointReset(sizes) => {
+            let names = ["Bump", "&Bump", "BumpScope", "&BumpScope", "WoD<&BumpScope>", "WoS<&BumpScope>", "dyn Core"];
+            let k = ep % names.len();
+            fn run<B: BumpAllocatorCore + ?Sized>(b: &B, sizes: &[usize]) -> Result<NonNull<u8>, AllocError> {
+                let cp = b.checkpoint();
+                for s in sizes {
+                    b.allocate(Layout::from_size_align(*s, 1).unwrap())?;
+                }
+                unsafe { b.reset_to(cp) };
+                b.allocate(Layout::new::<u64>()).map(|p| p.cast())
+            }
+            let sc = side.bump.as_scope();
+            let r = guarded(|| match k {
+                0 => run(&side.bump, &sizes),
+                1 => run(&&side.bump, &sizes),
+                2 => run(sc, &sizes),
+                3 => run(&sc, &sizes),
+                4 => run(&WithoutDealloc(sc), &sizes),
+                5 => run(&WithoutShrink(sc), &sizes),
+                _ => {
+                    let d: &dyn BumpAllocatorCore = sc;
+                    run(d, &sizes)
+                }
+            });
+            let o = match r {
+                Ok(Ok(p)) => {
+                    unsafe { p.as_ptr().write_bytes(0x5C, 8) };
+                    block(side, p, 8)
+                }
+                Ok(Err(_)) => Out::Err,
+                Err(p) => Out::Panic(format!("{:?}", classify(&p))),
+            };
+            (o, format!("checkpoint/reset_to via {}", names[k]))
+        }
+        Req::TryWith(ok, x) => {
+            let names = [
+                "Bump::alloc_try_with", "Bump::try_alloc_try_with", "BumpScope::alloc_try_with", "BumpScope::try_alloc_try_with", "Bump::alloc_try_with_mut", "Bump::try_alloc_try_with_mut",
+                "BumpScope::alloc_try_with_mut", "BumpScope::try_alloc_try_with_mut",
+            ];
+            let k = ep % 8;
+            let f = move || if ok { Ok([x; 3]) } else { Err(7u8) };
+            let bm = &mut side.bump;
+            let r: Result<Result<Result<(NonNull<u8>, usize), u8>, AllocError>, _> = guarded(|| match k {
+                0 => Ok(bm.alloc_try_with(f).map(box_parts)),
+                1 => bm.try_alloc_try_with(f).map(|r| r.map(box_parts)),
+                2 => Ok(bm.as_scope().alloc_try_with(f).map(box_parts)),
+                3 => bm.as_scope().try_alloc_try_with(f).map(|r| r.map(box_parts)),
+                4 => Ok(bm.alloc_try_with_mut(f).map(box_parts)),
+                5 => bm.try_alloc_try_with_mut(f).map(|r| r.map(box_parts)),
+                6 => Ok(bm.as_mut_scope().alloc_try_with_mut(f).map(box_parts)),
+                _ => bm.as_mut_scope().try_alloc_try_with_mut(f).map(|r| r.map(box_parts)),
+            });
+            let o = match r {
+                Ok(Ok(Ok((p, n)))) => block(side, p, n),
+                Ok(Ok(Err(_))) => Out::Unit,
+                Ok(Err(_)) => Out::Err,
+                Err(p) => Out::Panic(format!("{:?}", classify(&p))),
+            };
+            (o, names[k].into())
+        }
+    }
+}
+
+/// entry points that are only comparable within their group (the `_mut` forms place the value differently)
+fn same_group(req: &Req, e1: usize, e2: usize) -> bool {
+    match req {
+        Req::TryWith(..) => (e1 % 8) / 4 == (e2 % 8) / 4,
+        _ => true,
     }
 }
 
@@ -353,7 +516,19 @@ fn gen_req(rng: &mut Rng, rem: usize) -> Req {
         })
         .min(6000)
     };
-    match rng.below(26) {
+    match rng.below(32) {
+        26 | 27 => {
+            let n = n_for(rng, 4).min(400);
+            let cap = *rng.pick(&[0, n, n / 2, n + 5]);
+            Req::VecSession((0..n).map(|i| i as u32 * 7 + 3).collect(), cap, rng.bool())
+        }
+        28 | 29 => {
+            let n = n_for(rng, 3).min(400);
+            let cap = *rng.pick(&[0, n, n / 2, n + 5]);
+            Req::MutVecSession((0..n).map(|i| [i as u8, (i >> 8) as u8, 0x33]).collect(), cap, rng.bool())
+        }
+        30 => Req::CheckpointReset((0..rng.range(0, 4)).map(|_| *rng.pick(&[1, 8, 100, rem / 2, rem + 10, rem * 2 + 100])).collect()),
+        31 => Req::TryWith(rng.chance(2, 3), rng.next()),
         0 => Req::AllocU32(rng.next() as u32),
         1 => Req::AllocBig(rng.next()),
         2 => Req::AllocWith(rng.next()),
@@ -430,10 +605,19 @@ fn gen_req(rng: &mut Rng, rem: usize) -> Req {
     }
 }
 
+/// a small deterministic extra allocation so that the chunks a left scope leaves behind are not empty
+fn rng_free_len(sz: usize) -> usize {
+    sz % 61 + 1
+}
+
 fn n_eps(req: &Req) -> usize {
     match req {
-        Req::IterMut(_) | Req::IterMutRev(_) | Req::FmtMut(..) | Req::CStrFmtMut(..) => 10,
+        Req::IterMut(_) | Req::IterMutRev(_) | Req::FmtMut(..) | Req::CStrFmtMut(..) => 16,
         Req::Raw(..) => 10,
+        Req::VecSession(..) => 8,
+        Req::MutVecSession(..) => 10,
+        Req::CheckpointReset(_) => 7,
+        Req::TryWith(..) => 8,
         Req::TypedLayout(_) => 8,
         _ => 16,
     }
@@ -463,7 +647,8 @@ where
         pol.quarantine = false;
         let mon: Shared = Rc::new(RefCell::new(MonState::new(pol, FailPlan::default(), rng_seed)));
         vh::monalloc::set_current(Some(mon.clone()));
-        let bump = Bump::<A, S>::try_new_in(A::with(&mon)).ok()?;
+        // half of the not-guaranteed-allocated histories start without any chunk
+        let bump = if !S::GUARANTEED_ALLOCATED && rng_seed % 2 == 1 { Bump::<A, S>::default() } else { Bump::<A, S>::try_new_in(A::with(&mon)).ok()? };
         Some(Side { mon, bump })
     };
     let (Some(mut a), Some(mut b)) = (mk(seed), mk(seed)) else { return };
@@ -483,6 +668,22 @@ where
                 b.bump.reset();
                 trace.push("reset".into());
             }
+            2 => {
+                // a scope that outgrows the current chunk and is left: later chunks stay behind with stale contents,
+                // the current chunk is in the middle of the chain
+                let sizes: Vec<usize> = (0..rng.range(1, 3)).map(|_| rem + rng.range(1, 600)).collect();
+                for side in [&mut a, &mut b] {
+                    vh::monalloc::set_current(Some(side.mon.clone()));
+                    side.bump.scoped(|s| {
+                        for sz in &sizes {
+                            let _ = s.try_allocate_layout(Layout::from_size_align(*sz, 1).unwrap());
+                            let _ = s.try_alloc_slice_fill(rng_free_len(*sz), 0xA7u8);
+                        }
+                    });
+                }
+                rep.count("state:scope_left_later_chunks");
+                trace.push(format!("scoped growth {sizes:?}"));
+            }
             _ => {}
         }
         let req = gen_req(&mut rng, rem);
@@ -490,7 +691,7 @@ where
         let (e1, e2) = loop {
             let e1 = rng.below(n);
             let e2 = rng.below(n);
-            if e1 != e2 && comparable(&req, e1) && comparable(&req, e2) {
+            if e1 != e2 && comparable(&req, e1) && comparable(&req, e2) && same_group(&req, e1, e2) {
                 break (e1, e2);
             }
         };
